@@ -14,7 +14,7 @@ import Lattigo.Model.Params
     ckks_new  (same keys) lds=<LogDefaultScale>        → idem, plus err:logDefaultScale
     bgv_new logN= rt= Q= P= t=                         → accept nT= slots= logslots= qmul= | err:<cls>
     derived logN= rt= Q= P= lds= ks=<ivec> is=<b:n;…> tr=<ivec>
-    exported name= logN= xsH= Q= P=                    → bitQ= bitP= bitQP= kind= table= within= strict=
+    exported name= logN= xsH= Q= P=                    → bitQ= bitP= bitQP= kind= table= within= strict= known=
     table logN= kind=                                  → <T> | none
 -/
 namespace Driver.C19
@@ -97,17 +97,20 @@ def handleDerived (toks : List String) : Option String := do
     s!"isum={";".intercalate isum} rep={";".intercalate rep} tr={";".intercalate trs}")
 
 def handleExported (toks : List String) : Option String := do
+  let name ← kv? toks "name"
   let logN ← (← kv? toks "logN").toNat?
   let xsH ← (← kv? toks "xsH").toNat?
   let q ← parseVec? (← kv? toks "Q")
   let p ← parseVec? (← kv? toks "P")
+  let known := exportedSets.contains { name := name, logN := logN, xsH := xsH, q := q, p := p }
   let kind := secretKind logN xsH
   let tbl := match tableMax logN kind with
     | some t => toString t
     | none => "none"
   some (s!"bitQ={len64 (prodList q)} bitP={if p.isEmpty then 0 else len64 (prodList p)} " ++
     s!"bitQP={len64 (prodList q * prodList p)} kind={kind} table={tbl} " ++
-    s!"within={b2s (withinTable logN xsH q p)} strict={b2s (withinTableStrict logN xsH q p)}")
+    s!"within={b2s (withinTable logN xsH q p)} strict={b2s (withinTableStrict logN xsH q p)} " ++
+    s!"known={b2s known}")
 
 def handle (toks : List String) : String :=
   match toks with
